@@ -2,7 +2,7 @@
    Only statements, `exact <lemma>` and Print Assumptions live here. *)
 From Coq Require Import ZArith List Bool Lia.
 From Coq Require String.
-From BNP Require Import Base.Prims Model.C07 Proofs.C07 Proofs.C07_sim Proofs.C07_main.
+From BNP Require Import Base.Prims Model.C07 Proofs.C07 Proofs.C07_sim Proofs.C07_main Gen.C07 Bridge.C07.
 Import ListNotations.
 Open Scope Z_scope.
 
@@ -145,6 +145,28 @@ Theorem C07_step_pinned_refuted :
   exists v o, snd (m_step_v pinned true v o) = ORaise /\ exists v', snd (s_step (dec_value v) o) = OV v'.
 Proof. exact step_pinned_refuted. Qed.
 Print Assumptions C07_step_pinned_refuted.
+
+(* ---- source tie: the index / length arithmetic and the statement shapes regenerated from /repo on this run
+   (Gen/C07.v, written by translate/run.py from strops.join / split / str_equal / _str_equal_two_encoded_ragged_arrays,
+   util/ragged_slice.py and string_array.py) are the ones the model above is built from ---- *)
+Theorem C07_source_tie :
+  (forall s l k, gen_join_new_len l = m_join_new_len l /\ gen_join_body_len l = m_join_body_len l
+                 /\ gen_join_sep_pos s l = m_join_sep_pos s l /\ gen_join_drop k = m_join_drop k)
+  /\ (forall i0 l, gen_split_first_len i0 = m_split_first_len i0 /\ gen_split_forced_index = m_split_forced_index
+                    /\ gen_split_row_len l = m_split_row_len l /\ gen_split_lens_src = m_split_lens_src)
+  /\ (forall l L st k, gen_streq_mask l L = m_streq_mask l L /\ gen_streq2_mask l L = m_streq_mask l L
+                        /\ gen_streq_index st k = m_streq_index st k
+                        /\ gen_streq_refine_src = m_streq_refine_src /\ gen_streq2_refine_src = m_streq2_refine_src)
+  /\ gen_rslice_call_src = m_rslice_call_src
+  /\ gen_sarr_pad_side = m_sarr_pad_side /\ gen_sarr_empty_guard_src = m_sarr_empty_guard_src.
+Proof.
+  exact (conj (fun s l k => conj (b_join_new_len l) (conj (b_join_body_len l) (conj (b_join_sep_pos s l) (b_join_drop k))))
+        (conj (fun i0 l => conj (b_split_first_len i0) (conj b_split_forced_index (conj (b_split_row_len l) b_split_lens_src)))
+        (conj (fun l L st k => conj (b_streq_mask l L) (conj (b_streq2_mask l L) (conj (b_streq_index st k)
+                                 (conj b_streq_refine_src b_streq2_refine_src))))
+        (conj b_rslice_call_src (conj b_sarr_pad_side b_sarr_empty_guard_src))))).
+Qed.
+Print Assumptions C07_source_tie.
 
 (* ---- non-vacuity: concrete instances meet the hypotheses and really compute ---- *)
 Import String.
